@@ -2,11 +2,11 @@
 //!
 //! `abi.enc <type> <fields...>`   fields in struct order; integers as big-endian hex (`.` = 0 / empty)
 //! `abi.dec <type> <hex>`
-//! `abi.msgtype <hex>`            (the body of `get_message_type`: first word, `to_u64().unwrap()`)
+//! `abi.msgtype <hex>`            (the service's own `get_message_type`)
 
 use std::panic::{catch_unwind, AssertUnwindSafe};
 
-use interchain_token_service::abi::{AbiEncodeDecode, ParamType};
+use interchain_token_service::abi::AbiEncodeDecode;
 use interchain_token_service::abi_types::*;
 use multiversx_sc::types::{BigUint, ManagedBuffer, ManagedByteArray};
 use multiversx_sc_scenario::api::StaticApi;
@@ -186,9 +186,11 @@ fn run(f: &[String]) -> String {
             decode(f[1].as_str(), bytes)
         }
         "abi.msgtype" => {
-            // body of ExecutableModule::get_message_type (a private trait method): same calls
+            // the REAL `ExecutableModule::get_message_type` of the service, on a contract object over the static API
+            use interchain_token_service::executable::ExecutableModule;
             let payload = buf(&f[1]);
-            let v = ParamType::<A>::Uint256.abi_decode(&payload, 0).token.into_biguint().to_u64().unwrap();
+            let sc = interchain_token_service::contract_obj::<A>();
+            let v = sc.get_message_type(&payload);
             format!("ok n={}", v)
         }
         _ => panic!("unknown abi op"),
